@@ -186,7 +186,7 @@ def run_once(ctx, res, seed, size, tag):
             res.violations.append(dict(signature='C17/' + bad[0][0], what='unexpected observation %s (message not taken by the component)' % bad[0][0], case=describe_relay(c, tab)))
             continue
         if c['final'] == 0:
-            res.violations.append(dict(signature='C17/unsettled', what='consumed message was neither acked nor nacked within 4 s', case=describe_relay(c, tab)))
+            res.violations.append(dict(signature='C17/unsettled', what='consumed message was neither acked nor nacked within 10 s', case=describe_relay(c, tab)))
             continue
         good.append(c)
         npub = sum(1 for e in c['trace'] if e[0] == 'pub')
